@@ -37,6 +37,21 @@ def main():
     rc, o = sh("/venv/bin/python -m pytest -q -p no:cacheprovider --timeout=900 tests 2>&1 | tail -3", cwd=wt, env=env, timeout=1800)
     meta["repo_tests_on_mutated_worktree"] = o.strip().splitlines()[-1] if o.strip() else "?"
     print("repo tests on mutated worktree:", meta["repo_tests_on_mutated_worktree"])
+    scratch = os.environ.get("SEED_EVAL_SCRATCH")
+    if scratch:
+        # side-by-side mode: the checks run in a scratch copy of this directory against the (already mutated and built)
+        # worktree itself, so /repo and this directory's build output and evidence stay untouched
+        sh("rsync -a --delete --exclude .git --exclude .lake --exclude replays --exclude __pycache__ %s/ %s/" % (VERIF, scratch))
+        if not os.path.isdir(os.path.join(scratch, "lean", ".lake")):
+            sh("cp -a %s/lean/.lake %s/lean/.lake" % (VERIF, scratch))
+        for c in checks:
+            t0 = time.time()
+            rc, o = sh("./check %s quick" % c, cwd=scratch, env=dict(os.environ, BIOSCRAPE_REPO=wt), timeout=3000)
+            lines = [l for l in o.splitlines() if l.startswith(("VIOLATION", "# ", "OK ", "KNOWN-FINDING", "INFRA"))]
+            meta["checks"][c] = {"exit": rc, "wall_s": round(time.time() - t0, 1), "lines": lines[:8]}
+            print(c, "exit", rc, "|", " | ".join(lines[:4])[:600])
+        json.dump(meta, open(os.path.join(out, "meta.json"), "w"), indent=1)
+        return 0
     rc, o = sh("git -C /repo status --porcelain --untracked-files=no")
     if o.strip():
         print("/repo has tracked modifications; refusing", o)
